@@ -11,8 +11,9 @@ built around the hand model's state (`Model/Cache.lean`); `Lemmas/GetX*.lean` pr
 the hand model's function for that access path does (`GetXBase`: factory calls and the `CacheSet` methods; `GetXGet`:
 `_init`, `get`; `GetXLife`: `__setstate__`, `expire`, the `destroySelf` tail, `__getstate__`; `GetXCreate`:
 `_SO_finishCreate`; `GetXPaths`: alternate id, foreign key, iteration; `GetXModel` / `GetXInv`: the ties to
-`getObj` / `step` and the invariant).  Proved only as far as `CacheSet.clear / weakrefAll / allIDs / allSubCaches*`
-go: translated and runnable (`csCall`), no theorem (their loops range over all factories).
+`getObj` / `step` and the invariant; `GetXLoops`: the `CacheSet` methods that loop over all factories;
+`GetXTx`: C07's interface assumptions about the `CacheSet`; `GetXExpireAll`: `delete`, `connection.expireAll`).
+`sqlmeta.expireAll` is translated and runnable (`metaExpireAllG`), no theorem.
 
 The world: `s` — the hand model's state (rows, factories, objects); `made` — the keys of `CacheSet.caches` (the
 classes that have a `CacheFactory`; `WF`: a class without one has the empty factory in `s`); `lock c` — the lock of
